@@ -7,7 +7,7 @@ from concurrent.futures import ThreadPoolExecutor
 VERIF = os.path.dirname(os.path.dirname(os.path.abspath(__file__)))
 PY = '/venv/bin/python'
 SCRIPT = {'1': 'diff_test_xmlelement.py', '2': 'diff_test_container.py', '3': 'diff_test_schema_layer.py', '4': 'diff_test_validation_io.py',
-          '6': 'diff_test_histories.py', '7': 'diff_test_container_state.py', '8': 'diff_test_element_api.py'}
+          '6': 'diff_test_histories.py', '7': 'diff_test_container_state.py', '8': 'diff_test_element_api.py', '9': 'diff_test_schema_value_path.py'}
 
 
 def sh(cmd, **kw):
